@@ -4,6 +4,7 @@ import Driver.C08
 import Driver.C12
 import Driver.Norm
 import UralModel.Model.C07
+import UralModel.Model.FingerprintUrl
 /-!
 Driver handlers of property C07 (the hostname helpers themselves are handled by `Driver.Norm`:
 `normalize_hostname`, `get_normalized_hostname`, `fingerprint_hostname`,
@@ -13,6 +14,9 @@ Driver handlers of property C07 (the hostname helpers themselves are handled by 
   infer_redirection, strip_suffix, acc, walk, rules_file?}` → `{"stems": […]}` / `null`
   (unparseable) / `{"error": …}`: the three stem variants, the whole model function (cleaning and
   redirection inference included; `parse` is the constant function returning the shipped record);
+  with `model_parser` the parser is the MODELLED one (`Py.parseUrl`; for `fp` the environment
+  `Fingerprint.stringEnv`: modelled accessors and walk start) — the functions the string-level
+  theorems of `Props/C07Whole.lean` / `Props/C11Whole.lean` are about;
 * `c07_url_stems` `{url, parts|null, split, sa}` → `[ensure_protocol(url), stems|null,
   stems minus the scheme stem|null]`: `lru_stems` of a URL string;
 * `c07_host` `{fn: norm|fp, url, parsed|null, puny, normalize_amp, infer_redirection, strip_suffix,
@@ -40,7 +44,8 @@ def stemsOp (j : Json) (trie : SNode Str) : Json :=
   let url := s j "url"
   let sa := fieldBool j "sa"
   let sp := Driver.C12.splitOf j
-  let parse : Str → Option Parsed := fun _ => parsedOpt j
+  let mp := fieldBool j "model_parser"
+  let parse : Str → Option Parsed := if mp then parseUrl else fun _ => parsedOpt j
   match fieldStr j "variant" with
   | "canon" =>
     match canonicalizedLruStems sp (punyOf j) parse sa url with
@@ -51,7 +56,8 @@ def stemsOp (j : Json) (trie : SNode Str) : Json :=
     | some l => stemsJson l
     | none => .null
   | "fp" =>
-    exceptJson ((fingerprintedLruStems sp (envOf j trie) sa (fieldBool j "strip_suffix") url).map stemsJson)
+    let E := if mp then stringEnv (punyOf j) id trie else envOf j trie
+    exceptJson ((fingerprintedLruStems sp E sa (fieldBool j "strip_suffix") url).map stemsJson)
   | v => jerr s!"unknown-variant: {v}"
 
 def urlStemsOp (j : Json) : Json :=
@@ -96,7 +102,8 @@ def helperModelOp (j : Json) (trie : SNode Str) : Json :=
   match fieldStr j "fn" with
   | "gnh" => jlist [jOptStr (getNormalizedHostname (punyOf j) hostOfModel (fieldBool j "normalize_amp" true) infr url)]
   | "gfh" =>
-    exceptJson ((getFingerprintedHostname (envOf j trie) hostOfModel infr (fieldBool j "strip_suffix") url).map
+    let E := if fieldBool j "model_parser" then stringEnv (punyOf j) id trie else envOf j trie
+    exceptJson ((getFingerprintedHostname E hostOfModel infr (fieldBool j "strip_suffix") url).map
       fun h => jlist [jOptStr h])
   | v => jerr s!"unknown-fn: {v}"
 
